@@ -237,6 +237,11 @@ impl AsyncWrite for UtpStreamWriteHalf {
 
         g.writer_shutdown = true;
         update_optional_waker(&mut g.writer_waker, cx);
+        // The connection task must notice the shutdown (to send the FIN) even when it is idle.
+        if let Some(w) = g.dispatcher_waker.take() {
+            drop(g);
+            w.wake();
+        }
         Poll::Pending
     }
 }
